@@ -1,6 +1,8 @@
 #!/bin/sh
-# confirm every delivered mutant in its own worktree (independent of /repo and /verif); one log per property
+# usage: confirm_all.sh <basedir> C01 C02 ...: confirm every delivered mutant in its own worktree (independent of /repo and
+# /verif), properties in parallel; one log per property: <basedir>/<C>.confirm.log
+B=$1; shift
 for C in "$@"; do
-  ( for i in 1 2; do M=/tmp/m/$C/mutants/$i; [ -f $M/patch.diff ] || continue; echo "##### $C/$i"; /verif/tools/confirm_mutant.sh /tmp/m/$C $M; done > /tmp/m/$C.confirm.log 2>&1 ) &
+  ( for i in 1 2 3; do M=$B/$C/mutants/$i; [ -f $M/patch.diff ] || continue; echo "##### $C/$i"; /verif/tools/confirm_mutant.sh $B/$C $M; done > $B/$C.confirm.log 2>&1 ) &
 done
 wait
